@@ -320,6 +320,71 @@ def fill_group_psis_ok(fn):
         fail(fn, 'fill_group_psis differs from the transcribed loop nest', 'fill_group_psis')
 
 
+def class_checks(tree):
+    """GroupActivityCoefficients: __slots__, args and __call__ must be the transcribed text (Model.v: the only
+    per-object state is the group_psis buffer; __call__ = np.asarray + self.f(x, T, *self.args)); the f properties
+    of the three classes must return the two wrappers."""
+    classes = {n.name: n for n in tree.body if isinstance(n, ast.ClassDef)}
+    for c in ('GroupActivityCoefficients', 'UNIFACActivityCoefficients', 'DortmundActivityCoefficients',
+              'NISTActivityCoefficients', 'IdealActivityCoefficients'):
+        if c not in classes:
+            raise TranslatorError(f'{SRC}: class {c} not found')
+    def members(cls):
+        out = {}
+        for n in cls.body:
+            if isinstance(n, ast.FunctionDef): out[n.name] = n
+            elif isinstance(n, ast.Assign) and len(n.targets) == 1 and isinstance(n.targets[0], ast.Name):
+                out[n.targets[0].id] = n
+        return out
+    def body_wo_doc(fn):
+        b = list(fn.body)
+        if b and isinstance(b[0], ast.Expr) and isinstance(getattr(b[0], 'value', None), ast.Constant) \
+                and isinstance(b[0].value.value, str):
+            b = b[1:]
+        return [dump(x) for x in b]
+    def expect_body(cls, name, src, params):
+        m = members(classes[cls])
+        if name not in m or not isinstance(m[name], ast.FunctionDef):
+            fail(classes[cls], f'{cls}.{name} missing', cls)
+        fn = m[name]
+        if [a.arg for a in fn.args.args] != params:
+            fail(fn, f'{cls}.{name} parameters', cls)
+        if body_wo_doc(fn) != [dump(x) for x in ast.parse(src).body]:
+            fail(fn, f'{cls}.{name} differs from the transcribed text', cls)
+    g = members(classes['GroupActivityCoefficients'])
+    slots = ("__slots__ = ('_rs', '_qs', '_Qs','_chemgroups', '_group_psis',  '_chem_Qfractions', '_group_mask', "
+             "'_interactions', '_chemicals', '_index')")
+    if '__slots__' not in g or dump(g['__slots__']) != dump(parse_stmt(slots)):
+        fail(classes['GroupActivityCoefficients'], '__slots__ differs (per-object state the model does not have)',
+             'GroupActivityCoefficients')
+    expect_body('GroupActivityCoefficients', '__call__', 'x = np.asarray(x, float)\nreturn self.f(x, T, *self.args)',
+                ['self', 'x', 'T'])
+    expect_body('GroupActivityCoefficients', 'args',
+                'return (self._interactions, self._group_psis, self._group_mask, self._qs, self._rs, self._Qs, '
+                'self._chemgroups, self._chem_Qfractions, self._index)', ['self'])
+    # assignments to self.<slot> in __new__: exactly the declared slots
+    newf = g.get('__new__')
+    if not isinstance(newf, ast.FunctionDef):
+        fail(classes['GroupActivityCoefficients'], '__new__ missing', 'GroupActivityCoefficients')
+    assigned = set()
+    for n in ast.walk(newf):
+        if isinstance(n, ast.Attribute) and isinstance(n.ctx, ast.Store) and isinstance(n.value, ast.Name) and n.value.id == 'self':
+            assigned.add(n.attr)
+    allowed = {'_rs', '_qs', '_Qs', '_chemgroups', '_group_psis', '_chem_Qfractions', '_group_mask', '_interactions',
+               '_chemicals', '_index'}
+    if assigned != allowed:
+        fail(newf, f'__new__ assigns {sorted(assigned ^ allowed)} outside the modelled attributes', 'GroupActivityCoefficients')
+    expect_body('UNIFACActivityCoefficients', 'f', 'return gamma_UNIFAC', ['self'])
+    expect_body('DortmundActivityCoefficients', 'f', 'return gamma_modified_UNIFAC', ['self'])
+    n = members(classes['NISTActivityCoefficients'])
+    if 'f' not in n or dump(n['f']) != dump(parse_stmt('f = DortmundActivityCoefficients.f')):
+        fail(classes['NISTActivityCoefficients'], 'NISTActivityCoefficients.f', 'NISTActivityCoefficients')
+    for cls in ('UNIFACActivityCoefficients', 'DortmundActivityCoefficients', 'NISTActivityCoefficients'):
+        if '__call__' in members(classes[cls]) or 'args' in members(classes[cls]):
+            fail(classes[cls], f'{cls} overrides __call__/args', cls)
+    expect_body('IdealActivityCoefficients', '__call__', 'return np.ones(len(xs))', ['self', 'xs', 'T'])
+
+
 def translate(repo=None):
     repo = repo or os.environ.get('VERIF_REPO', REPO)
     path = os.path.join(repo, SRC)
@@ -339,9 +404,12 @@ def translate(repo=None):
     out.append('End Gen.')
     kern = '\n'.join(out) + '\n'
     fill_group_psis_ok(fns['fill_group_psis'])
+    class_checks(tree)
     w = [f'(* GENERATED by tr/C16_kernels.py from {SRC}', f'   sha256 {sha}',
          '   gamma_UNIFAC, gamma_modified_UNIFAC: statement skeleton matched, holes below;',
-         '   fill_group_psis: loop nest identical to the one transcribed in Wrapper.v *)',
+         '   fill_group_psis: loop nest identical to the one transcribed in Wrapper.v;',
+         '   GroupActivityCoefficients.__slots__/__new__ attribute set/args/__call__ and the f properties: identical to',
+         '   the text transcribed in Model.v (no per-object state besides the group_psis buffer) *)',
          'From V Require Export C16.Gen_kernels C16.Wrapper.', 'Section GenW.', 'Context {A : Type} (K : KOps A).', '']
     info = {}
     for name in ('gamma_UNIFAC', 'gamma_modified_UNIFAC'):
